@@ -161,6 +161,7 @@ Proof.
     try (inversion H; subst; reflexivity).
   - destruct (m mod 1000000 =? 0); inversion H; subst; reflexivity.
   - destruct (parse_int_str s); inversion H; subst; reflexivity.
+  - destruct (float_of_int z); inversion H; subst; reflexivity.
   - destruct (parse_float_str s); inversion H; subst; reflexivity.
 Qed.
 
